@@ -10,7 +10,7 @@ quotient code.
 Stand-ins
   root_soundness   success ∧ sane  ⇒  x ≥ 0, B x = B x0, Q_i = K_i (homogeneous) or the
                    solid-present / solid-absent alternative (single-salt systems); an exception
-                   raised by chempy on a valid input is a violation.  Every violation carries the
+                   is a refusal (no claim; counted in the evidence, not a violation).  Every violation carries the
                    top-level keys "chain" in {"default","Log","LogLin","Lin","solve"} and "symptom" in
                    {"exception","nonfinite","element_lost","negative","conservation","quotient",
                    "precipitation"} (first that applies, in that order).
@@ -304,8 +304,12 @@ def run_root_case(case):
                 if es is None:
                     es = P.build_eqsys(case["names"], _rxns_of(case), case["K"])
                 x, success, sane, fun = _call(es, case, chain)
-            except Exception as e:  # chempy raising on a valid input is a violation
-                out.append({"chain": chain, "claimed": False, "holds": False, "exc": True, "symptom": "exception",
+            except Exception as e:
+                # an exception is a refusal: no claim of success, so the statement ('whenever ... reports success and a sane result') says nothing
+                # about it.  (Until round 6 this stand-in counted it as a violation: the thorough tier with seed 1 then reported pyneqsys's
+                # 'Solving failed, conditional_maxiter reached' on a silver-chloride case -- a false alarm of the stand-in.)  The homogeneous
+                # cases still feed success_rate, where a call that raises is a failure to report success.
+                out.append({"chain": chain, "claimed": False, "holds": True, "exc": True, "symptom": "exception",
                             "stopped_at": "unknown", "solver_residual": None,
                             "detail": "exception %s: %s" % (type(e).__name__, str(e)[:300])})
                 continue
@@ -394,11 +398,12 @@ def run(tier, seed):
     pres = _pool_map(run_root_case, precip)
     wres = [run_root_case(w) for w in FIXED]
 
-    viol, calls, claims = [], 0, 0
+    viol, calls, claims, nexc = [], 0, 0, 0
     for case, rr in list(zip(FIXED, wres)) + list(zip(homog, hres)) + list(zip(precip, pres)):
         for r in rr:
             calls += 1
             claims += r["claimed"]
+            nexc += bool(r.get("exc"))
             if not r["holds"]:
                 viol.append({"inputs": case, "chain": r["chain"], "symptom": r["symptom"], "stopped_at": r["stopped_at"],
                              "solver_residual": r["solver_residual"],
@@ -431,8 +436,8 @@ def run(tier, seed):
                 "(Log,Lin), (Lin,) and through EqSystem.solve(); contract: success and sane => x_j >= -1e-12, "
                 "|B(x-x0)|_k <= 1e-6*sum|B_kj|(|x_j|+x0_j)+1e-12 for every element and charge, |ln Q_i - ln K_i| <= 1e-5 "
                 "for every homogeneous equilibrium, for a salt: (solid > 1e-10 and |ln IP - ln Ksp| <= 1e-5) or "
-                "(solid <= 1e-10 and IP <= Ksp(1+1e-5)); an exception is a violation; oracle from a hand-written "
-                "composition table.  Recorded findings F-C08/F-C08b: stopped_at == non_root (solver's own residual not small) with symptom conservation / quotient / element_lost." % (len(P.POOL) - 2),
+                "(solid <= 1e-10 and IP <= Ksp(1+1e-5)); an exception is a refusal, not a claim (%d of the calls raised); oracle from a hand-written "
+                "composition table.  Recorded findings F-C08/F-C08b: stopped_at == non_root (solver's own residual not small) with symptom conservation / quotient / element_lost." % (len(P.POOL) - 2, nexc),
         "bound": "%d homogeneous + %d precipitation cases + 3 fixed witnesses, 5 solver paths each; <= 4 equilibria, <= 11 species; "
                  "measured: %d calls, %d claims of success and sane" % (len(homog), len(precip), calls, claims),
         "evaluations": calls,
@@ -443,19 +448,24 @@ def run(tier, seed):
     }
 
     rate = n_ok / float(len(homog))
+    # 'the default solver chain' is the one an entry point uses when the caller names none: root()'s (NumSysLog) and EqSystem.solve()'s
+    # (NumSysLog, NumSysLin), both counted over the same cases
+    n_ok_solve = sum(1 for rr in hres for r in rr if r["chain"] == "solve" and r["claimed"])
+    rate_solve = n_ok_solve / float(len(homog))
     rviol = []
-    if len(homog) >= RATE_MIN_CASES and rate < RATE_MIN:
-        failed = [c for c, rr in zip(homog, hres) for r in rr if r["chain"] == "default" and not r["claimed"]]
-        rviol.append({"inputs": {"seed": seed, "n": len(homog), "first_failed": failed[:5]}, "chain": "default",
-                      "detail": "default chain claimed success and sane in %d of %d well-conditioned homogeneous cases "
-                                "(%.3f < %.2f)" % (n_ok, len(homog), rate, RATE_MIN)})
+    for chain, k, rt, what in (("default", n_ok, rate, "root() with its default chain"), ("solve", n_ok_solve, rate_solve, "EqSystem.solve() with its default chain")):
+        if len(homog) >= RATE_MIN_CASES and rt < RATE_MIN:
+            failed = [c for c, rr in zip(homog, hres) for r in rr if r["chain"] == chain and not r["claimed"]]
+            rviol.append({"inputs": {"seed": seed, "n": len(homog), "chain": chain, "first_failed": failed[:5]}, "chain": chain,
+                          "detail": "%s claimed success and sane in %d of %d well-conditioned homogeneous cases "
+                                    "(%.3f < %.2f)" % (what, k, len(homog), rt, RATE_MIN)})
     srate = {
         "name": "success_rate",
-        "rule": "the homogeneous cases of root_soundness (strictly positive initial concentrations), root() with its "
-                "default solver chain; counted over the whole sample: success and sane in >= 95 % of the cases "
-                "(violation only if the sample has >= 40 cases); an exception counts as a failure",
-        "bound": "%d cases; measured success and sane: %d (%.4f)" % (len(homog), n_ok, rate),
-        "evaluations": len(homog),
+        "rule": "the homogeneous cases of root_soundness (strictly positive initial concentrations), through root() with its "
+                "default solver chain and through EqSystem.solve() with its default chain; counted over the whole sample, per entry point: "
+                "success and sane in >= 95 % of the cases (violation only if the sample has >= 40 cases); a call that raises counts as a failure",
+        "bound": "%d cases; measured success and sane: root() %d (%.4f), solve() %d (%.4f)" % (len(homog), n_ok, rate, n_ok_solve, rate_solve),
+        "evaluations": 2 * len(homog),
         "distinct": len({_key(c) for c in homog}),
         "exhaustive": False,
         "samples": [homog[0]],
@@ -489,9 +499,12 @@ def replay(case):
     inp = case["inputs"]
     if name == "success_rate":
         cases, res, ok = _rate_sample(inp["seed"], inp["n"])
+        chain = inp.get("chain", "default")
+        if chain != "default":
+            ok = sum(1 for rr in res for r in rr if r["chain"] == chain and r["claimed"])
         rate = ok / float(len(cases))
         holds = not (len(cases) >= RATE_MIN_CASES and rate < RATE_MIN)
-        return holds, "default chain: success and sane in %d of %d cases (%.4f)" % (ok, len(cases), rate)
+        return holds, "%s chain: success and sane in %d of %d cases (%.4f)" % (chain, ok, len(cases), rate)
     if name == "brentq_agreement":
         return run_brentq_case(inp)
     rr = [r for r in run_root_case(inp) if r["chain"] == case.get("chain", r["chain"])]
